@@ -123,7 +123,7 @@ def oracle_system(M, bnds, o=None, points=None, rng=None):
     idx_ids = ["r%d" % i for i in range(len(M))]
     if o is None:
         try:
-            o = observe(mk_poly(M, bnds))
+            o = observe(mk_poly(M, bnds, narrow=True))
         except Exception as e:
             fail("observe", f"raised {type(e).__name__}: {e}")
             return fails, info
@@ -232,7 +232,7 @@ def run(res, tier, seed):
         stream.append(gen_system(rng))
     for M, bnds, prof in stream:
         try:
-            P = mk_poly(M, bnds)
+            P = mk_poly(M, bnds, narrow=True)
             o = observe(P)
         except Exception as e:
             res.violation("oracle", f"a C11 method raised {type(e).__name__}: {e} on matrix {M} bounds {bnds}",
@@ -338,7 +338,7 @@ def replay(payload):
     M, bnds = r["M"], [tuple(x) for x in r["bnds"]]
     if r.get("op") == "reduce-args":
         rv, cv = r["rows"], r["cols"]
-        R = mk_poly(M, bnds).reduce(None if rv is None else pnd.boolean_ndarray(np.array(rv, dtype=int)),
+        R = mk_poly(M, bnds, narrow=True).reduce(None if rv is None else pnd.boolean_ndarray(np.array(rv, dtype=int)),
                                     None if cv is None else np.array([np.nan if c is None else float(c) for c in cv], dtype=float))
         pj = poly_json(R)
         keep_c = [j for j in range(len(bnds)) if cv is None or cv[j] is None]
@@ -348,7 +348,7 @@ def replay(payload):
         return 0 if (pj["M"] == want and pj["vars"] == ["0"] + ["v%d" % j for j in keep_c] and pj["index"] == ["r%d" % i for i in keep_r]) else 1
     fails, info = oracle_system(M, bnds, points=[r["point"]] if r.get("point") and len(r["point"]) == len(bnds) else None)
     try:
-        o = observe(mk_poly(M, bnds))
+        o = observe(mk_poly(M, bnds, narrow=True))
         print("matrix", M, "bounds", bnds, "reducable_rows", o["rr"], "reducable_columns_approx", o["rca"], "reducable_rows_and_columns", o["loop"],
               "reduced", o["reduced"])
     except Exception as e:
